@@ -292,7 +292,8 @@ func (d *Director) Withdraw(via *Actor, wl *Wallet) error {
 	w.Set.mu.Unlock()
 	ctx, cancel := d.ctx()
 	defer cancel()
-	if d.faultWithdrawOnly {
+	if d.faultWithdrawOnly && storedCredit.Sign() != 0 {
+		// (the one storage error of the run is spent on a withdrawal that has credit to lose or to pay twice)
 		w.YS.SetDisarmed(false)
 	}
 	err := via.Call(ctx, nil, "pool_withdraw", wl.WSigned("pool_withdraw", d.nonce(wl.Addr))...)
